@@ -475,7 +475,7 @@ def register_modules(
         module_name = module.__class__.__name__.lower()
         if (
             not any_match(name, skip_layers)
-            and not any_match(module_name, skip_layers)
+            and not any_match(module.__class__.__name__, skip_layers)
             and requires_grad(module)
         ):
             if module_name == 'ColumnParallelLinear'.lower():
